@@ -351,6 +351,12 @@ func init() {
 				svc.Codecs = genSubset(c, []string{"proto", "json"}, true)
 			}
 			cfg := ConfigPlan{Services: []ServicePlan{svc}}
+			if rcase.schema == "sim2" && topo == "rest-client" && c.Prob(0.25) {
+				// one more binding for the same method, added with WithRules, whose body and response_body differ from the
+				// annotated one: which binding a request matched decides how it is bound and how its response is shaped
+				// (towards a REST backend the choice of binding is the transcoder's, so this is for REST clients only)
+				cfg.Rules = []RulePlan{{Selector: "sim.v1.ParamService." + rcase.method, Method: "POST", Template: "/p/v9/extra/" + strings.ToLower(rcase.method), Body: "*"}}
+			}
 			b := bindingOf(&cfg, rcase.schema, rcase.method)
 			if b == nil {
 				return nil
